@@ -17,8 +17,8 @@ from .lib import cz, cbool, clist, coq_mismatches, HarnessError, env
 LEVEL = "proof"
 META = {
     "category": "proof",
-    "text": "Coq theorems over an executable model of the index/slice core of starlark/eval.go (asIndex, indices, slice, the Slice loops of String/Bytes/List/Tuple, getIndex/setIndex, range slices) and of the string / list methods and sequence built-ins of library.go: for every sequence length, every None/int/other operand triple and every non-zero stride the computed slice is exactly Python's slice (arithmetic progression of slice.indices), the loops terminate within a proven fuel bound and never index out of range; index and item assignment follow the -n <= i < n rule; sub-range methods (find/rfind/index/rindex/count/startswith/endswith, list.index), split/rsplit/partition/replace/strip/join/splitlines, list insert/pop/remove/extend, zip/enumerate/reversed/any/all and repetition equal independently written Python-semantics specifications. The hand-written model is tied to /repo on every run: the harness executes the real operations exhaustively (all index/slice triples in [-n-3,n+3] and None for receivers of length 0-8 over a 3-letter alphabet, for string, bytes, list, tuple, range) and on dense method argument tuples, checks all of them against a naive Go copy of the specification, and evaluates a sample in Coq against both the model and Spec.v and in CPython 3.",
-    "note": "Trusted: Coq kernel + vm_compute; the harness and its Go copy of the specification; Go's strings/unicode packages are modelled by their documented meaning on ASCII (validated by the correspondence only); CPython validates Spec.v on the shared subset; format / % interpolation, sorted/min/max are not modelled here.",
+    "text": "Coq theorems (14, no axioms) over an executable model of the index/slice core of starlark/eval.go (asIndex, indices, slice, signum64, the Slice loops of String/Bytes/List/Tuple, getIndex/setIndex), of range values and rangeValue.Slice, and of all 30 string methods, the 7 list methods, reversed/zip/enumerate/any/all, concatenation and repetition of library.go / eval.go. slice_correct: for every sequence length, every None / int of any size / non-int operand triple and every stride the Go computation -- bounds, then the loop run with fuel len+1 or the step=1 fast path -- returns exactly Python's slice (the elements at slice.indices' arithmetic progression), never panics or runs out of fuel, and fails exactly for a zero stride or a non-int operand; the same for ranges (range_slice_correct, through the unsigned division of rangeLen), for x[i] and x[i]=v, and for the (start,end) normalisation shared by the methods (indices_clamp). string_methods_correct_partial / list_methods_correct / builtins_correct / repeat_correct: for EVERY argument tuple (arity, types, None, omitted optionals, huge integers) each method equals an independently written Python-semantics specification: sub-range methods, split/rsplit with a separator for every maxsplit (rightmost, also overlapping), the hand-written splitspace/rsplitspace loops against a word splitter, splitlines, partition, replace, join, strip family, case mapping and predicates, list insert/pop/index/remove/extend, zip (shortest), enumerate, repetition guards. The one input class where the full statement is false -- strip(\"\") -- is excluded by a boolean guard and refuted by strip_empty_cutset_refuted (known finding). The hand-written model is tied to /repo on every run: the harness executes the real operations exhaustively (all (lo,hi,step) in ([-n-3,n+3] U None)^3 for receivers of length 0-8 over a 3-letter alphabet, for string, bytes, list, tuple, range) and on dense method argument tuples, huge counts in a child process, random receivers to length 40; every case is checked against a naive Go copy of the specification; a sample is evaluated inside Coq against both the model (correspondence) and Spec.v (oracle), and in CPython 3 as an independent opinion on Spec.v.",
+    "note": "Trusted: Coq kernel + vm_compute; the harness, its generators and its Go copy of the specification; Go's strings/unicode functions are modelled by their documented meaning on ASCII (library oracles, validated only by the correspondence run); CPython validates Spec.v on the shared subset, with the deliberate differences of spec.md listed by class in the evidence (cpython_documented_differences). string.format, % interpolation, sorted, min, max have no Coq model here: they are compared with CPython only. Sequence lengths are bounded by 2^61 (slices) / 2^31 (index expressions) in the theorems; range receivers have 32-bit parameters (wider range arithmetic is C10).",
     "technique": "Coq proof over executable model + exhaustive differential correspondence (vm_compute) + Spec.v / Go / CPython oracles",
 }
 
@@ -349,9 +349,15 @@ def finding_key(c, why):
         return "repeat:count-outside-int32:%s" % ("negative" if neg else "positive")
     if op == "call" and name in ("strip", "lstrip", "rstrip") and classes == ["str-empty"]:
         return "strip:empty-cutset"
-    if op == "call" and name == "rsplit" and classes and classes[0] == "str":
+    if op == "call" and name == "rsplit" and classes and classes[0] == "str" and overlapping(vbytes(c["x"]), vbytes(args[0])):
         return "rsplit:separator-occurrences-overlap"
     return "%s:%s%s(%s)" % (op, kind + "." if kind else "", name, ",".join(classes))
+
+
+def overlapping(s, sep):
+    """Two occurrences of sep in s overlap."""
+    occ = [i for i in range(len(s) - len(sep) + 1) if s[i:i + len(sep)] == sep]
+    return any(b - a < len(sep) for a, b in zip(occ, occ[1:]))
 
 
 def documented_difference(c):
@@ -373,6 +379,8 @@ def documented_difference(c):
                 return "empty needle in an empty sub-range: spec.md defines the sub-range as S[start:end]"
             if name in ("startswith", "endswith") and args and args[0]["t"] == "tuple" and any(e["t"] != "str" for e in args[0].get("l", [])):
                 return "tuple with a non-string element: Python type-checks the whole tuple lazily as well, but reports differently when no element matches"
+        if name == "format" and b":" in vbytes(x):
+            return "format specifiers must be empty (spec.md: reserved for future use)"
         if name in ("strip", "lstrip", "rstrip") and tys == ["none"]:
             return "cutset parameter is a string; None is rejected"
         if name == "splitlines":
@@ -401,6 +409,12 @@ def documented_difference(c):
     if op == "bin":
         if c["name"] == "+" and x.get("t") == "bytes":
             return "spec.md defines concatenation for string, list and tuple only"
+        if c["name"] == "%":
+            a = args[0] if args else {}
+            if contains_bool(a):
+                return "bool is not int"
+            if a.get("t") == "list":
+                return "a list operand of % is one argument (Python treats any object with __getitem__ as a mapping and does not report surplus arguments)"
         if c["name"] == "*":
             for a in (x, args[0] if args else {}):
                 if a.get("t") == "int" and not (-(1 << 63) <= int(a["i"]) < (1 << 63)):
@@ -557,5 +571,5 @@ def run(ctx):
         "text is ASCII, so byte offsets and code points coincide (the property's quantifier)",
         "lists are unfrozen and not being iterated (freezing / mutation during iteration: C04, C06); element equality on the value domain used here cannot fail",
         "sequence lengths are below 2^31 for index expressions and below 2^61 for slices (Go cannot allocate more); range receivers have int32 parameters (range arithmetic overflow: C10)",
-        "string.format, % interpolation, sorted, min, max are not modelled in this property's Coq development",
+        "string.format, % interpolation, sorted, min, max are not modelled in this property's Coq development: CPython 3 is their only oracle (classes pyonly:*), on the subset without format specifiers and without !r / %r",
     ])
